@@ -193,4 +193,159 @@ example : vrun demoCfg [.file [notes]] = [.paths [some (root, notes)]] := by dec
     path is): the operation fails inside the `VirtualOS`, it does not go anywhere else -/
 example : vrun demoCfg [.chdir work, .file [notes]] = [.nil, .paths [none]] := by decide
 
+/-! ## Process level: exit, standard streams, users -/
+
+/-- the `Exit` calls recorded after any sequence of operations are those before it followed by the
+    codes of the sequence's own `os.exit` calls, in order -/
+theorem state_exits (s : St) (ops : List VOp) :
+    (stAfter s ops).exits = s.exits ++ exitCodes ops := by
+  induction ops generalizing s with
+  | nil => simp [stAfter, exitCodes]
+  | cons o os ih =>
+    cases o with
+    | exit a =>
+      show (stAfter (next s (.exit a)) os).exits = _
+      rw [ih]
+      show (s.exits ++ a.call.toList) ++ exitCodes os = s.exits ++ (a.call.toList ++ exitCodes os)
+      rw [List.append_assoc]
+    | _ => exact ih _
+
+theorem state_out (s : St) (ops : List VOp) : (stAfter s ops).out = s.out ++ outText ops := by
+  induction ops generalizing s with
+  | nil => simp [stAfter, outText]
+  | cons o os ih =>
+    cases o with
+    | stdoutWrite t =>
+      show (stAfter (next s (.stdoutWrite t)) os).out = _
+      rw [ih]
+      show (s.out ++ t) ++ outText os = s.out ++ (t ++ outText os)
+      rw [List.append_assoc]
+    | print t =>
+      show (stAfter (next s (.print t)) os).out = _
+      rw [ih]
+      show (s.out ++ t) ++ outText os = s.out ++ (t ++ outText os)
+      rw [List.append_assoc]
+    | _ => exact ih _
+
+theorem state_err (s : St) (ops : List VOp) : (stAfter s ops).err = s.err ++ errText ops := by
+  induction ops generalizing s with
+  | nil => simp [stAfter, errText]
+  | cons o os ih =>
+    cases o with
+    | stderrWrite t =>
+      show (stAfter (next s (.stderrWrite t)) os).err = _
+      rw [ih]
+      show (s.err ++ t) ++ errText os = s.err ++ (t ++ errText os)
+      rw [List.append_assoc]
+    | _ => exact ih _
+
+/-- **virtual_no_real_sink.**  No function of os/virtual.go (the methods of `VirtualOS`, its options,
+    `NewVirtualOS`) or of the files it hands out (nil_file.go, buffer_file.go, in_memory_file.go) uses
+    an OS-touching member of Go's os, io/ioutil, syscall, os/exec, os/user, os/signal, log,
+    path/filepath (Abs, Glob, Walk, …) or fmt (Print…, Scan…) packages, nor risor's `SimpleOS`,
+    outside the allowlist (the constant `os.PathSeparator`).  (Complete finite table, hence `decide`.) -/
+theorem virtual_no_real_sink : reviewedVSinks.all sinkClean = true := by decide
+
+/-- a table in which every entry is clean lets no method reach the real process -/
+theorem reachesReal_of_clean (t : VSinks) (h : t.all sinkClean = true) (fn : String) :
+    reachesReal t fn = false := by
+  unfold reachesReal
+  rw [List.any_eq_false]
+  intro e he
+  have := List.all_eq_true.mp h e he
+  simp [this]
+
+/-- **V_exit_never_real.**  Under a `VirtualOS` — with **or without** an exit handler, with any
+    combination of the other options — no script, whatever it does and however often and with
+    whatever argument it calls `os.exit`, terminates the real process: the list of real terminations
+    is empty.  For every sink table in which `VirtualOS.Exit` is clean, every configuration, every
+    sequence of operations of any length. -/
+theorem V_exit_never_real_of (t : VSinks) (h : t.all sinkClean = true) (c : Cfg) (ops : List VOp) :
+    (hostView t c ops).realExit = [] := by
+  unfold hostView
+  simp [reachesReal_of_clean t h]
+
+/-- … in particular for the code as reviewed (tied to the source by `virtual_sinks_tie`) -/
+theorem V_exit_never_real (c : Cfg) (ops : List VOp) :
+    (hostView reviewedVSinks c ops).realExit = [] :=
+  V_exit_never_real_of reviewedVSinks virtual_no_real_sink c ops
+
+/-- **V_exit_handler.**  The host's exit handler receives exactly the codes of the `os.exit` calls
+    the script executes, in order (`0` for `os.exit()`, `1` for `os.exit(err)`, nothing for calls
+    with wrong arguments); without a handler nobody receives anything: the exit is absorbed. -/
+theorem V_exit_handler (t : VSinks) (c : Cfg) (ops : List VOp) :
+    (hostView t c ops).handled = if c.exitHandler then exitCodes (live ops) else [] := by
+  unfold hostView
+  simp only [state_exits]
+  show (if c.exitHandler then [] ++ exitCodes (live ops) else []) = _
+  simp
+
+/-- **V_exit_absorbed.**  Without a handler the host sees no exit at all and the real process none
+    either — the default configuration of `NewVirtualOS`. -/
+theorem V_exit_absorbed (c : Cfg) (hc : c.exitHandler = false) (ops : List VOp) :
+    (hostView reviewedVSinks c ops).handled = [] ∧ (hostView reviewedVSinks c ops).realExit = [] := by
+  refine ⟨?_, V_exit_never_real c ops⟩
+  rw [V_exit_handler, hc]; rfl
+
+/-- **V_exit_continuation.**  Where a script ends: after operations that do not end it, `os.exit(a)`
+    ends it exactly if `a` is a non-zero code, an error value or too many arguments; after
+    `os.exit()`, `os.exit(0)` and a call with a wrong argument type the script simply goes on. -/
+theorem V_exit_continuation (pre post : List VOp) (a : ExitArg)
+    (hpre : pre.all (fun o => !o.aborts) = true) :
+    live (pre ++ .exit a :: post) = pre ++ .exit a :: (if a.aborts then [] else live post) := by
+  induction pre with
+  | nil =>
+    show (if (VOp.exit a).aborts then [VOp.exit a] else VOp.exit a :: live post) = _
+    show (if a.aborts then [VOp.exit a] else VOp.exit a :: live post) = _
+    cases a.aborts <;> rfl
+  | cons o os ih =>
+    simp only [List.all_cons, Bool.and_eq_true, Bool.not_eq_true'] at hpre
+    show (if o.aborts then [o] else o :: live (os ++ .exit a :: post)) = _
+    rw [hpre.1, ih hpre.2]; rfl
+
+/-- **V_stdio.**  The host's stdout and stderr files hold exactly what the script wrote to them, in
+    order, if the host configured them, and nothing exists otherwise. -/
+theorem V_stdio (t : VSinks) (c : Cfg) (ops : List VOp) :
+    (hostView t c ops).stdout = (if c.stdout then outText (live ops) else []) ∧
+    (hostView t c ops).stderr = (if c.stderr then errText (live ops) else []) := by
+  unfold hostView
+  simp only [state_out, state_err]
+  constructor
+  · show (if c.stdout then [] ++ outText (live ops) else []) = _
+    simp
+  · show (if c.stderr then [] ++ errText (live ops) else []) = _
+    simp
+
+/-- **V_users.**  User and group lookups answer from what the host configured: they fail in every
+    state when nothing is configured, and for every non-empty name or id in any case. -/
+theorem V_users (c : Cfg) (s : St) (x : Path) :
+    (c.user = false → out c s .currentUser = .err ∧ out c s (.lookupUser x) = .err) ∧
+    (c.group = false → out c s (.lookupGroup x) = .err) ∧
+    (x ≠ [] → out c s (.lookupUser x) = .err ∧ out c s (.lookupGroup x) = .err) := by
+  refine ⟨fun h => ?_, fun h => ?_, fun h => ?_⟩
+  · simp [out, h]
+  · simp [out, h]
+  · have : x.isEmpty = false := by cases x <;> simp_all
+    simp [out, this]
+
+/-- a `VirtualOS` with no option but the root mount: no exit handler -/
+example : demoCfg.exitHandler = false := rfl
+
+/-- `os.getpid(); os.exit(3); os.getwd()` under a handler-less `VirtualOS`: the script ends at the
+    exit with a fatal error, the host's handler list and the real process see nothing -/
+example : vscript demoCfg [.getpid, .exit (.code 3), .getwd] = [.int 0, .abort] ∧
+    hostView reviewedVSinks demoCfg [.getpid, .exit (.code 3), .getwd] =
+      { handled := [], stdout := [], stderr := [], realExit := [] } := by decide
+
+/-- `os.exit(); os.exit(0); os.exit("s"); print("x"); os.exit(err); os.exit(7)` with a handler and a
+    stdout file: the script goes on after the first three calls, the handler gets `[0, 0, 1]`, stdout
+    holds "x\n", the call after the fatal one never happens -/
+example : hostView reviewedVSinks { demoCfg with exitHandler := true, stdout := true }
+      [.exit .none, .exit (.code 0), .exit .badType, .print [120, 10], .exit .err, .exit (.code 7)] =
+    { handled := [0, 0, 1], stdout := [120, 10], stderr := [], realExit := [] } := by decide
+
+/-- the hypothesis of `V_exit_never_real_of` is what carries the claim: in a table in which the body
+    of `VirtualOS.Exit` uses `os.Exit`, the same model terminates the real process -/
+example : (hostView [("VirtualOS.Exit", ["os.Exit"])] demoCfg [.exit (.code 3)]).realExit = [3] := by decide
+
 end Risor.C12.V
